@@ -1334,6 +1334,26 @@ mkassignexpr(struct expr *l, struct expr *r)
 	return e;
 }
 
+/* a struct or union with a const-qualified member (recursively) is not a modifiable lvalue (C11 6.3.2.1p1) */
+static bool
+hasconstmember(struct type *t)
+{
+	struct member *m;
+	struct type *mt;
+
+	for (m = t->u.structunion.members; m; m = m->next) {
+		if (m->qual & QUALCONST)
+			return true;
+		for (mt = m->type; mt->kind == TYPEARRAY; mt = mt->base) {
+			if (mt->qual & QUALCONST)
+				return true;
+		}
+		if ((mt->kind == TYPESTRUCT || mt->kind == TYPEUNION) && hasconstmember(mt))
+			return true;
+	}
+	return false;
+}
+
 struct expr *
 assignexpr(struct scope *s)
 {
@@ -1360,6 +1380,8 @@ assignexpr(struct scope *s)
 	}
 	if (!l->lvalue)
 		error(&tok.loc, "left side of assignment expression is not an lvalue");
+	if ((l->type->kind == TYPESTRUCT || l->type->kind == TYPEUNION) && hasconstmember(l->type))
+		error(&tok.loc, "left side of assignment expression has a const-qualified member");
 	next();
 	r = assignexpr(s);
 	if (!op)
